@@ -776,6 +776,48 @@ type retryFbNode struct {
 	retrym
 }
 
+// Zero-size node types: pointers to distinct zero-size types may all share one
+// address, so only (type, pointer) together identify such a node. They carry
+// no state; the running harness and their specs are found through a package
+// variable (one simulation per process at a time).
+var zstHarness *harness
+var zstSpec [4]*NodeSpec
+
+type zst0 struct{}
+type zst1 struct{}
+type zst2 struct{}
+type zst3 struct{}
+
+func zPrep(k int, s *flyt.SharedStore) (any, error) { return zstHarness.prep(zstSpec[k], s) }
+func zExec(k int, p any) (any, error) {
+	v, _, err := zstHarness.exec(zstSpec[k], p, true)
+	return v, err
+}
+func zPost(k int, s *flyt.SharedStore, p, e any) (flyt.Action, error) {
+	return zstHarness.post(zstSpec[k], s, p, e, false)
+}
+
+func (*zst0) Prep(ctx context.Context, s *flyt.SharedStore) (any, error) { return zPrep(0, s) }
+func (*zst0) Exec(ctx context.Context, p any) (any, error)               { return zExec(0, p) }
+func (*zst0) Post(ctx context.Context, s *flyt.SharedStore, p, e any) (flyt.Action, error) {
+	return zPost(0, s, p, e)
+}
+func (*zst1) Prep(ctx context.Context, s *flyt.SharedStore) (any, error) { return zPrep(1, s) }
+func (*zst1) Exec(ctx context.Context, p any) (any, error)               { return zExec(1, p) }
+func (*zst1) Post(ctx context.Context, s *flyt.SharedStore, p, e any) (flyt.Action, error) {
+	return zPost(1, s, p, e)
+}
+func (*zst2) Prep(ctx context.Context, s *flyt.SharedStore) (any, error) { return zPrep(2, s) }
+func (*zst2) Exec(ctx context.Context, p any) (any, error)               { return zExec(2, p) }
+func (*zst2) Post(ctx context.Context, s *flyt.SharedStore, p, e any) (flyt.Action, error) {
+	return zPost(2, s, p, e)
+}
+func (*zst3) Prep(ctx context.Context, s *flyt.SharedStore) (any, error) { return zPrep(3, s) }
+func (*zst3) Exec(ctx context.Context, p any) (any, error)               { return zExec(3, p) }
+func (*zst3) Post(ctx context.Context, s *flyt.SharedStore, p, e any) (flyt.Action, error) {
+	return zPost(3, s, p, e)
+}
+
 func baseOpts(n *NodeSpec, form string) []flyt.NodeOption {
 	var opts []flyt.NodeOption
 	for _, s := range n.Settings {
@@ -1127,6 +1169,8 @@ func (h *harness) buildBatch(n *NodeSpec) flyt.Node {
 }
 
 func (h *harness) build() {
+	zstHarness = h
+	zstSpec = [4]*NodeSpec{}
 	h.nodes = make([]flyt.Node, len(h.sc.Nodes))
 	for i, n := range h.sc.Nodes {
 		c := cb{h: h, n: n}
@@ -1138,6 +1182,17 @@ func (h *harness) build() {
 			} else {
 				h.nodes[i] = &baseNode{baseWrap: bw, cb: c}
 			}
+		case "zst":
+			k := 0
+			for k < len(zstSpec) && zstSpec[k] != nil {
+				k++
+			}
+			if k == len(zstSpec) {
+				h.nodes[i] = &plainNode{c} // more than four: an ordinary plain node
+				break
+			}
+			zstSpec[k] = n
+			h.nodes[i] = []flyt.Node{new(zst0), new(zst1), new(zst2), new(zst3)}[k]
 		case "plain":
 			h.nodes[i] = &plainNode{c}
 		case "fb":
